@@ -144,6 +144,12 @@ func c17Model(c c17Case, price, used int64) c17Verdict {
 	return v
 }
 
+// c17SameUnit: the gas unit and the denomination are untouched. (A coin whose amount became 0 loses its
+// denomination in the store encoding; that is outside this property.)
+func c17SameUnit(got, cur std.GasPrice) bool {
+	return got.Gas == cur.Gas && (got.Price.Denom == cur.Price.Denom || got.Price.Amount == 0)
+}
+
 func c17Exec(ctx *vk.Ctx, c c17Case) error {
 	env, params, cp, err := c17NewEnv(c)
 	if err != nil {
@@ -210,11 +216,11 @@ func c17Exec(ctx *vk.Ctx, c c17Case) error {
 			}
 		case "zero-target":
 			// used > target = 0: must move up by at least one unit
-			if got.Gas != cur.Gas || got.Price.Denom != cur.Price.Denom || (now < old+1 && old != math.MaxInt64) {
+			if !c17SameUnit(got, cur) || (now < old+1 && old != math.MaxInt64) {
 				return fmt.Errorf("%s: usage above a zero target must raise the price, got %+v", where, got)
 			}
 		case "up", "unlimited":
-			if got.Gas != cur.Gas || got.Price.Denom != cur.Price.Denom {
+			if !c17SameUnit(got, cur) {
 				return fmt.Errorf("%s: gas unit/denom changed: %+v", where, got)
 			}
 			if v.overflow {
@@ -232,11 +238,11 @@ func c17Exec(ctx *vk.Ctx, c c17Case) error {
 			}
 		case "floor-reset":
 			want := params.InitialGasPrice
-			if got != want {
+			if got.Gas != want.Gas || got.Price.Amount != want.Price.Amount || (want.Price.Amount != 0 && got.Price.Denom != want.Price.Denom) {
 				return fmt.Errorf("%s: price below the initial price with usage under target must return to the initial price %+v, got %+v", where, want, got)
 			}
 		case "down":
-			if got.Gas != cur.Gas || got.Price.Denom != cur.Price.Denom {
+			if !c17SameUnit(got, cur) {
 				return fmt.Errorf("%s: gas unit/denom changed: %+v", where, got)
 			}
 			lim := old - 1
@@ -294,7 +300,7 @@ func c17Draw(rt *rapid.T) c17Case {
 	default:
 		c.MaxGas = int64(rapid.IntRange(100, 100_000_000).Draw(rt, "mgmid"))
 	}
-	switch rapid.IntRange(0, 7).Draw(rt, "ratiok") {
+	switch rapid.IntRange(0, 11).Draw(rt, "ratiok") {
 	case 0:
 		c.Ratio = 0
 	case 1:
@@ -313,16 +319,16 @@ func c17Draw(rt *rapid.T) c17Case {
 		c.Comp = int64(rapid.IntRange(1, 1000).Draw(rt, "comp"))
 	}
 	c.GasUnit = rapid.SampledFrom([]int64{1, 1000, 1000, 1_000_000}).Draw(rt, "gasunit")
-	switch rapid.IntRange(0, 4).Draw(rt, "initk") {
+	switch rapid.IntRange(0, 7).Draw(rt, "initk") {
 	case 0:
 		c.Init = 0
 	case 1:
 		c.Init = c17Big(rt, "init", 0)
 	default:
-		c.Init = int64(rapid.IntRange(0, 1000).Draw(rt, "init"))
+		c.Init = int64(rapid.IntRange(1, 1000).Draw(rt, "init"))
 	}
 	c.StartSet = rapid.IntRange(0, 19).Draw(rt, "set") != 0
-	switch rapid.IntRange(0, 9).Draw(rt, "startk") {
+	switch rapid.IntRange(0, 14).Draw(rt, "startk") {
 	case 0:
 		c.Start = c.Init
 	case 1:
